@@ -87,5 +87,10 @@ def run(ctx):
                 "equal node of the old upper level is reused; dead old children are removed exactly once.")
     nsw = eswap.run(ctx, F)
     ctx.floor("E-TABLE.swap", "interpreted level_swap situations", nsw, 80)
+    ctx.explain("E-FREELIST.mark: SharedStoreState::allocated (the slot array's high-water mark; chunks below it belong to "
+                "threads that may still be filling them) is written by get_slot_from_shared only, with a value computed by an "
+                "addition: it never moves back.")
+    nm = efreelist.check_allocation_mark(ctx, F)
+    ctx.floor("E-FREELIST.mark", "writers of the allocation mark", nm, 1)
     ctx.not_decided = ("exactness of counts over histories; the unsafe internals of the managers; "
                        "capacity restoration after gc")
